@@ -165,7 +165,10 @@ func (f *Frame) inModifies(comp string, ref, idx *Term) *Term {
 	return Or(alts...)
 }
 
-func (f *Frame) writeAllowed(comp string, ref, idx *Term) *Term {
+func (f *Frame) writeAllowed(st *State, comp string, ref, idx *Term) *Term {
+	if f.top().trackOwn {
+		return Or(Eq(ref, IntLit(0)), f.isOwn(st, ref), f.inModifies(comp, ref, idx))
+	}
 	return Or(Eq(ref, IntLit(0)), f.isFresh(ref), f.inModifies(comp, ref, idx))
 }
 
@@ -198,7 +201,7 @@ func (f *Frame) locTarget(l LocVal) (comp string, ref, idx *Term, ok bool) {
 
 // frameCheck: when the function has a write frame, every store must target fresh memory or a
 // location listed in its modifies clause.
-func (f *Frame) frameCheck(r *Term, l LocVal, what string, pos token.Pos) {
+func (f *Frame) frameCheck(st *State, r *Term, l LocVal, what string, pos token.Pos) {
 	if !f.checkFrame {
 		return
 	}
@@ -216,10 +219,14 @@ func (f *Frame) frameCheck(r *Term, l LocVal, what string, pos token.Pos) {
 		for i := range si.Fields {
 			all = append(all, f.inModifies(compF(si, i), ref, nil))
 		}
-		f.check("frame", what, r, Or(f.isFresh(ref), And(all...)), pos)
+		own := f.isFresh(ref)
+		if f.top().trackOwn {
+			own = f.isOwn(st, ref)
+		}
+		f.check("frame", what, r, Or(own, And(all...)), pos)
 		return
 	}
-	f.check("frame", what, r, f.writeAllowed(comp, ref, idx), pos)
+	f.check("frame", what, r, f.writeAllowed(st, comp, ref, idx), pos)
 }
 
 func (f *Frame) inModifiesGlobal(comp string) *Term {
@@ -231,15 +238,15 @@ func (f *Frame) inModifiesGlobal(comp string) *Term {
 	return False
 }
 
-func (f *Frame) frameCheckMap(r *Term, mt *types.Map, m, k *Term, what string, pos token.Pos) {
+func (f *Frame) frameCheckMap(st *State, r *Term, mt *types.Map, m, k *Term, what string, pos token.Pos) {
 	if !f.checkFrame {
 		return
 	}
-	f.check("frame", what, r, Or(Eq(m, IntLit(0)), f.writeAllowed(f.mdName(mt.Key(), mt.Elem()), m, k)), pos)
+	f.check("frame", what, r, Or(Eq(m, IntLit(0)), f.writeAllowed(st, f.mdName(mt.Key(), mt.Elem()), m, k)), pos)
 }
 
 // frameCheckCall: the callee's write frame must be inside ours.
-func (f *Frame) frameCheckCall(r *Term, callee string, locs []modLoc, known bool, pos token.Pos) {
+func (f *Frame) frameCheckCall(st *State, r *Term, callee string, locs []modLoc, known bool, pos token.Pos) {
 	if !f.checkFrame {
 		return
 	}
@@ -249,7 +256,7 @@ func (f *Frame) frameCheckCall(r *Term, callee string, locs []modLoc, known bool
 	}
 	var all []*Term
 	for _, l := range locs {
-		all = append(all, f.writeAllowed(l.comp, l.ref, l.idx))
+		all = append(all, f.writeAllowed(st, l.comp, l.ref, l.idx))
 	}
 	f.check("frame", "call:"+callee, r, And(all...), pos)
 }
